@@ -240,10 +240,21 @@ class Walker:
 
 
 def load_pair(report, crate_dir, crate_name, config_features=(), cfgs=()):
-    """Expand the crate and its marked twin; returns (real top items, twin top items, attrs per file)."""
-    real = expand(crate_dir, crate_name, features=config_features, cfgs=cfgs)
+    """Expand the crate and its marked twin; returns (real top items, twin top items, attrs per file).
+    A witness module whose expansion does not parse is dropped from both sides and reported (as a
+    finding when the module speaks for the report's property)."""
+    from .corpus import module_props
+    failures = {}
+    real = expand(crate_dir, crate_name, features=config_features, cfgs=cfgs, failures=failures)
+    for mod, msg in sorted(failures.items()):
+        text = "the macro's output for witness module `%s` does not parse: %s" % (mod, msg)
+        if report.prop in module_props(crate_dir, mod):
+            report.add("W-parse", "%s/%s" % (os.path.basename(crate_dir), mod), text, where="src/%s.rs" % mod)
+        else:
+            report.note("skipped (belongs to %s): %s" % (",".join(sorted(module_props(crate_dir, mod))), text))
     twin_dir, attrs = make_marked_twin(crate_dir, os.path.basename(crate_dir) + "_twin")
-    twin = expand(twin_dir, crate_name + "_twin", features=config_features, cfgs=cfgs)
+    twin = expand(twin_dir, crate_name + "_twin", features=config_features,
+                  cfgs=tuple(cfgs) + tuple("skip_" + m for m in sorted(failures)))
     R = items_of(parse_tts(tokenize(real)))
     T = items_of(parse_tts(tokenize(twin)))
     return R, T, attrs
